@@ -43,6 +43,8 @@ var behaviours = []behaviour{
 	{"panic(string)", true, func(t *f1testing.T) { panic("boom") }},
 	{"panic(int)", true, func(t *f1testing.T) { panic(42) }},
 	{"panic(struct)", true, func(t *f1testing.T) { panic(custom{1, 2}) }},
+	{"panic(slice)", true, func(t *f1testing.T) { panic([]int{1, 2}) }}, // values that cannot be compared with ==
+	{"panic(struct-holding-a-map)", true, func(t *f1testing.T) { panic(struct{ m map[string]int }{}) }},
 	{"nil-map-write", true, func(t *f1testing.T) { var m map[string]int; m["x"] = 1 }},
 	{"index-out-of-range", true, func(t *f1testing.T) { var s []int; i := 3; _ = s[i] }},
 	{"nil-func-call", true, func(t *f1testing.T) { var f func(); f() }},
